@@ -1,5 +1,21 @@
 /-
   Helper lemmas for C07More: un-binarizing a whole deterministic grammar.  Core only.
+
+  Plan of the proof of `unbinOK_build` (= `unbinOK r g (binarizeGrammar r none g)`):
+  * `binarizeGrammar r none g` is `build A []`: the list `A = allAdds 0 R` of additions (`Grammar.add _ _ .default _`)
+    folded into the empty grammar, `R` = the reordered rules; the additions of one rule are the rule itself
+    (rank <= 2) or its chain `chainR` whose labels are `@(s+1)X ..` with `s` = number of labels used before.
+  * a built grammar seen through its `rules`: `rules_add_cases` (an addition inserts one rule or raises one count,
+    nothing else moves), hence `hasKey_build` (same keys as `A`), `rsum_build` (weighted count sums agree with `A`),
+    `rules_keys_nodup` (no key twice).
+  * labels: heads of additions are original symbols or `uniqueLabel m` with `m` in the interval of their rule
+    (`allAdds_head`), so one addition per label (`allAdds_unique`); `findDef` finds it (`findDef_unique`);
+    `followChain` from the top rule returns the chain (`followChain_chainR`, fuel by `chain_fuel`).
+  * `unbinChain_chainR`: composing the chain gives the rule back (from `evalChain_chainLins`/`instLin_formal` of
+    GramBin, plus: the fan-outs `unbinChain` reads off the chain are the numbers of variables `occ`).
+  * `tops_eq`: the additions with a non-binarization head, un-binarized inside the finished grammar, are `R` in order;
+    `transfer_perm`/`transfer_isSome` move this from `A` to the `rules` of the built grammar up to `aggregate`.
+  * `wfLin_relabel`/`CWF_reorderingOptimal`: the optimal reordering keeps the well-formedness.
 -/
 import TT.Spec.Grammar
 import TT.Lemmas.GramBin
@@ -977,5 +993,588 @@ theorem transfer_isSome (A : List Rule) (qq : Func → Bool) (ψ : Func → Lin 
   rcases this with ⟨c, hc⟩ | ⟨c, hc⟩
   · exact h (e.1, e.2.1, c) hc hq
   · simp [Grammar.rules] at hc
+
+
+/-! ### un-binarizing the result of `binarizeGrammar _ none` -/
+
+/-- the un-binarization of the rule `(f, l)` inside the grammar `G` -/
+def phi (G : Grammar) (f : Func) (l : Lin) : Option (Func × Lin) :=
+  unbinChain (followChain G G.rules.length f l)
+
+def notBin (f : Func) : Bool := !(isBinSym (f.head?.getD []))
+
+theorem unbinOK_eq (r : Reordering) (g res : Grammar) :
+    unbinOK r g res =
+      (((res.rules.filter fun e => notBin e.1).all fun e => (phi res e.1 e.2.1).isSome) &&
+        sameBag (aggregate ((res.rules.filter fun e => notBin e.1).filterMap (liftC (phi res))))
+          (aggregate (reordered r g))) := by
+  unfold unbinOK
+  simp only [List.all_map, List.filterMap_map]
+  rfl
+
+theorem followChain_short (G : Grammar) (f : Func) (l : Lin) (hf : NBF f) (h3 : f.length ≤ 3) (fuel : Nat) :
+    followChain G fuel f l = [(f, l)] := by
+  cases fuel with
+  | zero => rfl
+  | succ n =>
+    unfold followChain
+    split
+    · rename_i a b y
+      have : isBinSym y = false := hf y (by simp)
+      simp [this]
+    · rfl
+
+theorem phi_short (G : Grammar) (f : Func) (l : Lin) (hf : NBF f) (h3 : f.length ≤ 3) : phi G f l = some (f, l) := by
+  unfold phi
+  rw [followChain_short G f l hf h3]
+  rfl
+
+theorem notBin_of_NBF (f : Func) (hf : NBF f) : notBin f = true := by
+  unfold notBin
+  cases f with
+  | nil => simp [isBinSym]
+  | cons a r => simp [hf a (by simp)]
+
+/-- following the chain from the top rule written for a rule of rank >= 3 gives exactly the chain written for it -/
+theorem followChain_long (R R1 R2 : List Rule) (e : Rule) (hR : R = R1 ++ e :: R2) (hnb : NB R)
+    (h3 : ¬ e.1.length ≤ 3) :
+    followChain (build (allAdds 0 R) []) (build (allAdds 0 R) []).rules.length
+        (chainTop e.1 (e.1.length - 3) 1 (e.1[0]?.getD []) e.2.1 (total R1)).1
+        (chainTop e.1 (e.1.length - 3) 1 (e.1[0]?.getD []) e.2.1 (total R1)).2 =
+      chainR e.1 (e.1.length - 3) 1 (e.1[0]?.getD []) e.2.1 (total R1) := by
+  have hnbe : NBF e.1 := hnb e (by rw [hR]; simp)
+  have hmem : ∀ x ∈ chainR e.1 (e.1.length - 3) 1 (e.1[0]?.getD []) e.2.1 (total R1),
+      withCount e.2.2 x ∈ allAdds 0 R := by
+    intro x hx
+    rw [hR, allAdds_append]
+    apply List.mem_append_right
+    simp only [allAdds, Nat.zero_add]
+    apply List.mem_append_left
+    unfold ruleAdds
+    rw [if_neg h3]
+    exact List.mem_map_of_mem hx
+  have hkey : ∀ x ∈ chainR e.1 (e.1.length - 3) 1 (e.1[0]?.getD []) e.2.1 (total R1),
+      hasKey (build (allAdds 0 R) []).rules x.1 x.2 := by
+    intro x hx
+    rw [hasKey_build]
+    exact Or.inl ⟨e.2.2, hmem x hx⟩
+  have hfd : ∀ x ∈ chainR e.1 (e.1.length - 3) 1 (e.1[0]?.getD []) e.2.1 (total R1), ∀ m,
+      x.1.head? = some (uniqueLabel m) → findDef (build (allAdds 0 R) []) (uniqueLabel m) = some x := by
+    intro x hx m hm
+    have := findDef_unique (allAdds 0 R) (uniqueLabel m) (withCount e.2.2 x) (hmem x hx) hm
+      (fun z hz hzm => by rw [allAdds_unique 0 R hnb z hz _ (hmem x hx) m hzm hm])
+    simpa [withCount] using this
+  exact followChain_chainR _ e.1 hnbe _ _ _ _ _ _ (chain_fuel _ _ _ _ _ _ _ hkey) hfd
+
+theorem phi_long (R R1 R2 : List Rule) (e : Rule) (hR : R = R1 ++ e :: R2) (hnb : NB R)
+    (h3 : ¬ e.1.length ≤ 3) (hw : CWF e.1 e.2.1) :
+    phi (build (allAdds 0 R) [])
+        (chainTop e.1 (e.1.length - 3) 1 (e.1[0]?.getD []) e.2.1 (total R1)).1
+        (chainTop e.1 (e.1.length - 3) 1 (e.1[0]?.getD []) e.2.1 (total R1)).2 = some (e.1, e.2.1) := by
+  unfold phi
+  rw [followChain_long R R1 R2 e hR hnb h3]
+  exact unbinChain_chainR e.1 e.2.1 (e.1.length - 3) (total R1) (by omega) (by omega) hw
+
+/-- hypotheses on the (reordered) rules: no symbol looks like a binarization symbol; rules that get binarized
+    are well formed -/
+def ROK (R : List Rule) : Prop := ∀ e ∈ R, NBF e.1 ∧ (¬ e.1.length ≤ 3 → CWF e.1 e.2.1)
+
+theorem ROK_NB (R : List Rule) (h : ROK R) : NB R := fun e he => (h e he).1
+
+theorem chainR_tail_bin (func : Func) (k i : Nat) (t : Lin) (s : Nat) (c : Nat) :
+    ((chainR func k i (uniqueLabel (s + 1)) t (s + 1)).map (withCount c)).filter (fun x => notBin x.1) = [] := by
+  rw [List.filter_eq_nil_iff]
+  intro x hx
+  obtain ⟨y, hy, rfl⟩ := List.mem_map.1 hx
+  have : ∃ m, y.1.head? = some (uniqueLabel m) := by
+    rcases chainR_head_mem func k i _ _ _ y hy with e | ⟨m, _, _, e⟩
+    · exact ⟨_, e⟩
+    · exact ⟨m, e⟩
+  obtain ⟨m, hm⟩ := this
+  simp [withCount, notBin, hm, isBinSym_uniqueLabel]
+
+/-- among the additions made for one rule exactly one does not define a binarization symbol, and it un-binarizes
+    (inside the finished grammar) to the rule -/
+theorem ruleAdds_tops (R R1 R2 : List Rule) (e : Rule) (h : R = R1 ++ e :: R2) (hR : ROK R) :
+    ∃ t : Rule, ((ruleAdds (total R1) e.1 e.2.1 e.2.2).filter fun x => notBin x.1) = [t] ∧
+      phi (build (allAdds 0 R) []) t.1 t.2.1 = some (e.1, e.2.1) ∧ t.2.2 = e.2.2 := by
+  have he : e ∈ R := by rw [h]; simp
+  obtain ⟨hnbe, hwe⟩ := hR e he
+  by_cases h3 : e.1.length ≤ 3
+  · refine ⟨e, ?_, phi_short _ e.1 e.2.1 hnbe h3, rfl⟩
+    unfold ruleAdds
+    rw [if_pos h3, List.filter_cons_of_pos (by simpa using notBin_of_NBF e.1 hnbe)]
+    rfl
+  · have hphi := phi_long R R1 R2 e h (ROK_NB R hR) h3 (hwe h3)
+    unfold ruleAdds
+    rw [if_neg h3]
+    obtain ⟨k, hk⟩ : ∃ k, e.1.length - 3 = k + 1 := ⟨e.1.length - 4, by omega⟩
+    rw [hk] at hphi ⊢
+    simp only [chainR, List.map_cons, chainTop] at hphi ⊢
+    refine ⟨withCount e.2.2 ([e.1[0]?.getD [], e.1[1]?.getD [], uniqueLabel (total R1 + 1)], topLin e.2.1),
+      ?_, hphi, rfl⟩
+    rw [List.filter_cons_of_pos (by
+      simp only [withCount, notBin, List.head?_cons, Option.getD_some, NBF_get e.1 hnbe 0]; rfl)]
+    rw [chainR_tail_bin]
+
+/-- the non-binarization additions, un-binarized inside the finished grammar, are the rules themselves, in order -/
+theorem tops_eq (R : List Rule) (hR : ROK R) : ∀ (R2 R1 : List Rule), R = R1 ++ R2 →
+    ((allAdds (total R1) R2).filter fun x => notBin x.1).filterMap (liftC (phi (build (allAdds 0 R) []))) = R2
+  | [], _, _ => rfl
+  | e :: R2, R1, h => by
+    have ih := tops_eq R hR R2 (R1 ++ [e]) (by rw [h]; simp)
+    rw [total_append] at ih
+    simp only [total, Nat.add_zero] at ih
+    obtain ⟨t, ht1, ht2, ht3⟩ := ruleAdds_tops R R1 R2 e h hR
+    simp only [allAdds, List.filter_append, List.filterMap_append, ih, ht1]
+    simp [liftC, ht2, ht3]
+
+theorem tops_isSome (R : List Rule) (hR : ROK R) : ∀ (R2 R1 : List Rule), R = R1 ++ R2 →
+    ∀ x ∈ allAdds (total R1) R2, notBin x.1 = true → (phi (build (allAdds 0 R) []) x.1 x.2.1).isSome = true
+  | [], _, _, x, hx, _ => by simp [allAdds] at hx
+  | e :: R2, R1, h, x, hx, hq => by
+    simp only [allAdds, List.mem_append] at hx
+    rcases hx with hx | hx
+    · obtain ⟨t, ht1, ht2, _⟩ := ruleAdds_tops R R1 R2 e h hR
+      have : x ∈ (ruleAdds (total R1) e.1 e.2.1 e.2.2).filter fun x => notBin x.1 := List.mem_filter.2 ⟨hx, hq⟩
+      rw [ht1, List.mem_singleton] at this
+      rw [this, ht2]; rfl
+    · have ih := tops_isSome R hR R2 (R1 ++ [e]) (by rw [h]; simp) x
+      rw [total_append] at ih
+      simp only [total, Nat.add_zero] at ih
+      exact ih hx hq
+
+theorem unbinOK_build (r : Reordering) (g : Grammar) (hR : ROK (reordered r g)) :
+    unbinOK r g (binarizeGrammar r none g) = true := by
+  rw [unbinOK_eq, binarizeGrammar_build]
+  have ht := tops_eq (reordered r g) hR (reordered r g) [] rfl
+  have hs := tops_isSome (reordered r g) hR (reordered r g) [] rfl
+  simp only [total] at ht hs
+  rw [Bool.and_eq_true]
+  constructor
+  · rw [List.all_eq_true]
+    intro e he
+    rw [List.mem_filter] at he
+    exact transfer_isSome (allAdds 0 (reordered r g)) notBin (phi (build (allAdds 0 (reordered r g)) [])) hs e
+      he.1 he.2
+  · apply sameBag_of_perm
+    have := transfer_perm (allAdds 0 (reordered r g)) notBin (phi (build (allAdds 0 (reordered r g)) []))
+    rw [ht] at this
+    exact this
+
+
+/-! ### the stepping stones -/
+
+theorem allAdds_bin_head : ∀ (s : Nat) (R : List Rule), NB R → ∀ x ∈ allAdds s R, ∀ y,
+    x.1.head? = some y → isBinSym y = true → ∃ m, y = uniqueLabel m
+  | s, [], _, x, hx, _, _, _ => by simp [allAdds] at hx
+  | s, e :: R, hnb, x, hx, y, hy, hb => by
+    simp only [allAdds, List.mem_append] at hx
+    rcases hx with hx | hx
+    · have hf : NBF e.1 := hnb e (by simp)
+      unfold ruleAdds at hx
+      by_cases h3 : e.1.length ≤ 3
+      · simp only [h3, if_true, List.mem_singleton] at hx
+        rw [hx] at hy
+        have := hf y (List.mem_of_mem_head? hy)
+        rw [this] at hb; exact absurd hb (by simp)
+      · simp only [h3, if_false] at hx
+        obtain ⟨z, hz, rfl⟩ := List.mem_map.1 hx
+        rcases chainR_head_mem e.1 _ _ _ _ _ z hz with e' | ⟨m, _, _, e'⟩
+        · simp only [withCount] at hy
+          rw [e'] at hy
+          have := NBF_get e.1 hf 0
+          rw [Option.some.inj hy] at this
+          rw [this] at hb; exact absurd hb (by simp)
+        · simp only [withCount] at hy
+          rw [e'] at hy
+          exact ⟨m, (Option.some.inj hy).symm⟩
+    · exact allAdds_bin_head _ R (fun e he => hnb e (by simp [he])) x hx y hy hb
+
+/-- two rules of the result that define the same binarization symbol are the same rule -/
+theorem binDef_unique (R : List Rule) (hnb : NB R) (x : Str) (hx : isBinSym x = true) (z1 z2 : Rule)
+    (h1 : z1 ∈ (build (allAdds 0 R) []).rules) (h2 : z2 ∈ (build (allAdds 0 R) []).rules)
+    (e1 : z1.1.head? = some x) (e2 : z2.1.head? = some x) : keyOf z1 = keyOf z2 := by
+  have k1 : hasKey (build (allAdds 0 R) []).rules z1.1 z1.2.1 := ⟨z1.2.2, h1⟩
+  have k2 : hasKey (build (allAdds 0 R) []).rules z2.1 z2.2.1 := ⟨z2.2.2, h2⟩
+  rw [hasKey_build] at k1 k2
+  rcases k1 with ⟨c1, a1⟩ | ⟨c1, a1⟩
+  · rcases k2 with ⟨c2, a2⟩ | ⟨c2, a2⟩
+    · obtain ⟨m, rfl⟩ := allAdds_bin_head 0 R hnb _ a1 x e1 hx
+      have := allAdds_unique 0 R hnb _ a1 _ a2 m e1 e2
+      simp only [Prod.mk.injEq] at this
+      simp [keyOf, this.1, this.2.1]
+    · simp [Grammar.rules] at a2
+  · simp [Grammar.rules] at a1
+
+theorem length_le_one_of_all_eq {α} : ∀ (l : List α), l.Nodup → (∀ a ∈ l, ∀ b ∈ l, a = b) → l.length ≤ 1
+  | [], _, _ => by simp
+  | [_], _, _ => by simp
+  | a :: b :: r, hn, h => by
+    have : a = b := h a (by simp) b (by simp)
+    subst this
+    simp at hn
+
+theorem binSyms_unique' (R : List Rule) (hnb : NB R) (x : Str) (hx : isBinSym x = true) :
+    ((build (allAdds 0 R) []).rules.filter fun e => decide (e.1.head? = some x)).length ≤ 1 := by
+  have hnd := rules_keys_nodup _ (GN_build (allAdds 0 R) [] GN_nil)
+  have hsub : ((build (allAdds 0 R) []).rules.filter fun e => decide (e.1.head? = some x)).Sublist
+      (build (allAdds 0 R) []).rules := List.filter_sublist
+  have hnd2 := (hsub.map keyOf).nodup hnd
+  have := length_le_one_of_all_eq _ hnd2 (by
+    intro a ha b hb
+    obtain ⟨z1, hz1, rfl⟩ := List.mem_map.1 ha
+    obtain ⟨z2, hz2, rfl⟩ := List.mem_map.1 hb
+    rw [List.mem_filter] at hz1 hz2
+    exact binDef_unique R hnb x hx z1 z2 hz1.1 hz2.1 (by simpa using hz1.2) (by simpa using hz2.2))
+  simpa using this
+
+/-! ### counts -/
+
+theorem vget_upsert (v0 v : VertKey) (n : Nat) (vs : AList VertKey Nat) :
+    (AList.get? v (AList.upsert v0 (fun o => o.getD 0 + n) vs)).getD 0 =
+      (AList.get? v vs).getD 0 + if v = v0 then n else 0 := by
+  rw [get?_upsert]
+  by_cases hv : v = v0
+  · subst hv; simp
+  · simp [hv]
+
+theorem lget_upsert (l0 l : Lin) (v0 v : VertKey) (n : Nat) (ls : AList Lin (AList VertKey Nat)) :
+    ((AList.get? l (AList.upsert l0 (fun o2 => AList.upsert v0 (fun o3 => o3.getD 0 + n) (o2.getD [])) ls)).bind
+        (AList.get? v)).getD 0 =
+      ((AList.get? l ls).bind (AList.get? v)).getD 0 + if l = l0 ∧ v = v0 then n else 0 := by
+  rw [get?_upsert]
+  by_cases hl : l = l0
+  · subst hl
+    simp only [if_true, Option.bind_some, true_and, vget_upsert]
+    cases AList.get? l ls with
+    | none => simp [AList.get?]
+    | some vs => simp
+  · simp [hl]
+
+theorem gramCount_add (G : Grammar) (f0 : Func) (l0 : Lin) (v0 : VertKey) (n : Nat) (f : Func) (l : Lin) (v : VertKey) :
+    gramCount (G.add f0 l0 v0 n) f l v = gramCount G f l v + if f = f0 ∧ l = l0 ∧ v = v0 then n else 0 := by
+  unfold gramCount Grammar.add
+  rw [get?_upsert]
+  by_cases hf : f = f0
+  · subst hf
+    simp only [if_true, Option.bind_some, true_and, lget_upsert]
+    cases AList.get? f G with
+    | none => simp [AList.get?]
+    | some ls => simp
+  · simp [hf]
+
+theorem gramCount_build (f : Func) (l : Lin) : ∀ (A : List Rule) (G : Grammar),
+    gramCount (build A G) f l .default = gramCount G f l .default + ksum (f, l) A
+  | [], G => by simp [build_nil, ksum, rsum]
+  | e :: A, G => by
+    rw [build_cons, gramCount_build f l A, addD, gramCount_add]
+    unfold ksum
+    rw [rsum_cons]
+    by_cases h : f = e.1 ∧ l = e.2.1
+    · have : (e.1, e.2.1) = (f, l) := by rw [h.1, h.2]
+      simp [h, this]; omega
+    · have : ¬ (e.1, e.2.1) = (f, l) := by
+        intro e'; simp only [Prod.mk.injEq] at e'; exact h ⟨e'.1.symm, e'.2.symm⟩
+      have h' : ¬ (f = e.1 ∧ l = e.2.1 ∧ VertKey.default = VertKey.default) := fun x => h ⟨x.1, x.2.1⟩
+      rw [if_neg h', if_neg this]; omega
+
+theorem ksum_append (k : Func × Lin) (a b : List Rule) : ksum k (a ++ b) = ksum k a + ksum k b := by
+  unfold ksum; exact rsum_append _ a b
+
+theorem small_kept (R : List Rule) (e : Rule) (he : e ∈ R) (h3 : e.1.length ≤ 3) :
+    e.2.2 ≤ gramCount (build (allAdds 0 R) []) e.1 e.2.1 .default := by
+  obtain ⟨R1, R2, rfl⟩ := List.append_of_mem he
+  rw [gramCount_build, allAdds_append]
+  simp only [allAdds, ksum_append]
+  have : ksum (e.1, e.2.1) (ruleAdds (0 + total R1) e.1 e.2.1 e.2.2) = e.2.2 := by
+    unfold ruleAdds
+    rw [if_pos h3]
+    simp [ksum, rsum]
+  omega
+
+
+/-! ### `chainOf` (one rule binarized on its own) is the chain with labels from 1 -/
+
+theorem build_fresh : ∀ (A : List Rule) (G : Grammar), (A.map (·.1)).Nodup → (∀ a ∈ A, ∀ p ∈ G, p.1 ≠ a.1) →
+    (build A G).rules = G.rules ++ A
+  | [], G, _, _ => by simp [build_nil]
+  | e :: A, G, hn, hf => by
+    rw [List.map_cons, List.nodup_cons] at hn
+    have hadd : addD G e = G ++ [(e.1, [(e.2.1, [(VertKey.default, e.2.2)])])] := by
+      unfold addD Grammar.add
+      rcases upsert_cases e.1 (fun o => AList.upsert e.2.1 (fun o2 => AList.upsert VertKey.default
+          (fun o3 => o3.getD 0 + e.2.2) (o2.getD [])) (o.getD [])) G with ⟨_, h2⟩ | ⟨G1, ls, G2, h1, _, _⟩
+      · rw [h2]; simp [AList.upsert]
+      · exact absurd rfl (hf e (by simp) (e.1, ls) (by rw [h1]; simp))
+    rw [build_cons, build_fresh A _ hn.2, hadd, rules_append, rules_single]
+    · simp [vsum]
+    · intro a ha p hp
+      rw [hadd] at hp
+      rcases List.mem_append.1 hp with hp | hp
+      · exact hf a (by simp [ha]) p hp
+      · simp only [List.mem_singleton] at hp
+        rw [hp]
+        intro e'
+        exact hn.1 (List.mem_map.2 ⟨a, ha, e'.symm⟩)
+
+theorem chainR_funcs_nodup (func : Func) (k i : Nat) (h : Str) (t : Lin) (s : Nat)
+    (hh : ∀ m, h ≠ uniqueLabel m) : ((chainR func k i h t s).map (·.1)).Nodup := by
+  have hheads : ((chainR func k i h t s).map (·.1.head?)).Nodup := by
+    rw [chainR_heads, List.nodup_cons]
+    constructor
+    · intro hm
+      obtain ⟨m, _, e⟩ := List.mem_map.1 hm
+      exact hh m (Option.some.inj e).symm
+    · unfold List.Nodup
+      rw [List.pairwise_map]
+      refine (List.nodup_range' (s := s + 1) (n := k) (step := 1) (by omega)).imp ?_
+      intro a b hab e
+      exact hab (uniqueLabel_inj (Option.some.inj e))
+  unfold List.Nodup at hheads ⊢
+  rw [List.pairwise_map] at hheads ⊢
+  exact hheads.imp (fun hab e => hab (by rw [e]))
+
+theorem chainOf_eq (f : Func) (l : Lin) (hf : NBF f) (h3 : ¬ f.length ≤ 3) :
+    chainOf none f l [] = chainR f (f.length - 3) 1 (f[0]?.getD []) l 0 := by
+  unfold chainOf
+  rw [binarizeRule_build]
+  simp only
+  have hr : ∀ G : Grammar, (G.flatMap fun x => match x with | (f, ls) => ls.map fun x => match x with | (l, _) => (f, l)) =
+      G.rules.map fun e => (e.1, e.2.1) := by
+    intro G
+    simp only [Grammar.rules, List.map_flatMap, List.map_map]
+    rfl
+  rw [hr]
+  unfold ruleAdds
+  rw [if_neg h3, build_fresh]
+  · simp only [Grammar.rules, List.flatMap_nil, List.nil_append, List.map_map]
+    conv => rhs; rw [← List.map_id (chainR f (f.length - 3) 1 (f[0]?.getD []) l 0)]
+    apply List.map_congr_left
+    intro x _; rfl
+  · rw [List.map_map]
+    exact chainR_funcs_nodup f _ _ _ _ _ (fun m => NBF_ne f hf 0 m)
+  · simp
+
+/-! ### the hypotheses of `chain_composes` give `CWF` -/
+
+theorem CWF_of_wf (f : Func) (l : Lin) (h : wfLin l ((fanOut l).drop 1) = true)
+    (hl : (fanOut l).length = f.length) : CWF f l := by
+  unfold CWF
+  have e : (l.flatMap fun arg => arg.map (·.1)) = l.flatten.map (·.1) := by
+    simp [List.flatMap_def, List.map_flatten]
+  have hd : (fanOut l).drop 1 = (List.range (f.length - 1)).map (occ l) := by
+    unfold fanOut at hl ⊢
+    simp only [List.length_cons, List.length_map, List.length_range] at hl
+    simp only [List.drop_succ_cons, List.drop_zero]
+    rw [← hl]
+    simp only [Nat.add_sub_cancel]
+    apply List.map_congr_left
+    intro i _
+    unfold occ
+    rw [e]
+    rfl
+  rw [← hd]; exact h
+
+
+/-! ### reordering keeps the hypotheses -/
+
+theorem NBF_reorder (r : Reordering) (f : Func) (l : Lin) (h : NBF f) : NBF (reorder r f l).1 := by
+  cases r
+  · exact h
+  · exact h
+  · show NBF (reorderingOptimal f l).1
+    rw [reorderingOptimal_fst]
+    intro x hx
+    rcases List.mem_cons.1 hx with rfl | hx
+    · exact NBF_get f h 0
+    · obtain ⟨o, _, rfl⟩ := List.mem_map.1 hx
+      exact NBF_get f h o
+
+theorem pickOrder_full (l : Lin) (k : Nat) :
+    (pickOrder l ((List.range k).map (· + 1)) k).Perm ((List.range k).map (· + 1)) :=
+  pickOrder_perm_aux l k _ (nodup_range_succ k) (by simp)
+
+theorem reorder_length (r : Reordering) (f : Func) (l : Lin) (h : f ≠ []) : (reorder r f l).1.length = f.length := by
+  cases r
+  · rfl
+  · rfl
+  · show (reorderingOptimal f l).1.length = f.length
+    rw [reorderingOptimal_fst]
+    have := (pickOrder_full l (f.length - 1)).length_eq
+    simp only [List.length_map, List.length_range] at this
+    simp only [List.length_cons, List.length_map, this]
+    have : 0 < f.length := List.length_pos_iff.2 h
+    omega
+
+theorem reorder_length_le (r : Reordering) (f : Func) (l : Lin) (h : f.length ≤ 3) : (reorder r f l).1.length ≤ 3 := by
+  by_cases e : f = []
+  · subst e
+    cases r <;> simp [reorder, reorderingOptimal, pickOrder]
+  · rw [reorder_length r f l e]; exact h
+
+/-- renaming the right-hand-side positions of a linearization -/
+def relabel (σ : Int → Nat) (l : Lin) : Lin := l.map fun a => a.map fun v => ((σ v.1 : Int), v.2)
+
+theorem relabel_flatten (σ : Int → Nat) (l : Lin) :
+    (relabel σ l).flatten = l.flatten.map fun v => ((σ v.1 : Int), v.2) := by
+  unfold relabel
+  rw [List.map_flatten]
+
+theorem wfLin_adj (l : Lin) (fo : List Nat) (h : wfLin l fo = true) :
+    ∀ a ∈ l, ∀ p ∈ a.zip (a.drop 1), p.1.1 ≠ p.2.1 := by
+  unfold wfLin at h
+  simp only [Bool.and_eq_true, List.all_eq_true] at h
+  intro a ha p hp
+  have := (h.2 a ha).2 p hp
+  simpa using this
+
+theorem wfLin_relabel (l : Lin) (k : Nat) (σ : Int → Nat) (τ : Nat → Nat)
+    (h1 : ∀ x : Int, 0 ≤ x → x.toNat < k → σ x < k ∧ τ (σ x) = x.toNat)
+    (h2 : ∀ i, i < k → τ i < k ∧ σ (τ i : Int) = i)
+    (h : wfLin l ((List.range k).map (occ l)) = true) :
+    wfLin (relabel σ l) ((List.range k).map (occ (relabel σ l))) = true := by
+  obtain ⟨p1, p2, p3⟩ := wfLin_parts l _ h
+  have p4 := wfLin_adj l _ h
+  simp only [List.length_map, List.length_range] at p1 p2
+  -- σ v.1 = i ↔ v.1 = τ i on the variables of l
+  have key : ∀ v ∈ l.flatten, ∀ i, i < k → ((σ v.1 = i) ↔ v.1 = (τ i : Int)) := by
+    intro v hv i hi
+    obtain ⟨a, b⟩ := p1 v hv
+    constructor
+    · intro e
+      have := (h1 v.1 a b).2
+      rw [e] at this
+      omega
+    · intro e
+      rw [e]; exact (h2 i hi).2
+  have hocc : ∀ i, i < k → occ (relabel σ l) i = occ l (τ i) := by
+    intro i hi
+    unfold occ
+    rw [relabel_flatten, List.map_map, List.count_eq_countP, List.count_eq_countP, List.countP_map, List.countP_map]
+    apply List.countP_congr
+    intro v hv
+    have := key v hv i hi
+    simp only [Function.comp, beq_iff_eq]
+    constructor
+    · intro e; exact this.1 (by omega)
+    · intro e; have := this.2 e; omega
+  unfold wfLin
+  simp only [Bool.and_eq_true, List.all_eq_true, decide_eq_true_eq, List.length_map, List.length_range,
+    List.mem_range, beq_iff_eq]
+  refine ⟨⟨?_, ?_⟩, ?_⟩
+  · intro v hv
+    rw [relabel_flatten] at hv
+    obtain ⟨w, hw, rfl⟩ := List.mem_map.1 hv
+    obtain ⟨a, b⟩ := p1 w hw
+    have := (h1 w.1 a b).1
+    simp only
+    omega
+  · intro i hi
+    have hget : ((List.range k).map (occ (relabel σ l)))[i]?.getD 0 = occ l (τ i) := by
+      simp [hi, hocc i hi]
+    rw [hget, relabel_flatten, List.filter_map, List.map_map]
+    have := p2 (τ i) (h2 i hi).1
+    have hget2 : ((List.range k).map (occ l))[τ i]?.getD 0 = occ l (τ i) := by
+      simp [(h2 i hi).1]
+    rw [hget2] at this
+    rw [← this]
+    have hf : l.flatten.filter ((fun v : Int × Nat => v.1 == (i : Int)) ∘ fun v => ((σ v.1 : Int), v.2)) =
+        l.flatten.filter (fun v => v.1 == ((τ i : Nat) : Int)) := by
+      apply List.filter_congr
+      intro v hv
+      have := key v hv i hi
+      simp only [Function.comp]
+      by_cases e : v.1 = (τ i : Int)
+      · have e2 : (σ v.1 : Int) = (i : Int) := by have := this.2 e; omega
+        rw [beq_iff_eq.2 e2, beq_iff_eq.2 e]
+      · have e' : ¬ σ v.1 = i := fun x => e (this.1 x)
+        have e'' : ¬ (σ v.1 : Int) = (i : Int) := by omega
+        rw [beq_eq_false_iff_ne.2 e'', beq_eq_false_iff_ne.2 e]
+    rw [hf]
+    rfl
+  · intro a' ha'
+    unfold relabel at ha'
+    obtain ⟨a, ha, rfl⟩ := List.mem_map.1 ha'
+    refine ⟨by simpa using p3 a ha, ?_⟩
+    intro p hp
+    rw [← List.map_drop, List.zip_map] at hp
+    obtain ⟨q, hq, rfl⟩ := List.mem_map.1 hp
+    have hne := p4 a ha q hq
+    have m1 : q.1 ∈ l.flatten := List.mem_flatten.2 ⟨a, ha, (List.of_mem_zip hq).1⟩
+    have m2 : q.2 ∈ l.flatten := List.mem_flatten.2 ⟨a, ha, List.mem_of_mem_drop (List.of_mem_zip hq).2⟩
+    obtain ⟨a1, b1⟩ := p1 q.1 m1
+    obtain ⟨a2, b2⟩ := p1 q.2 m2
+    have t1 := (h1 q.1.1 a1 b1).2
+    have t2 := (h1 q.2.1 a2 b2).2
+    simp only [Prod.map, bne_iff_ne, ne_eq]
+    intro e
+    have : σ q.1.1 = σ q.2.1 := by omega
+    rw [this] at t1
+    apply hne
+    omega
+
+
+theorem perm_positions (order : List Nat) (k : Nat) (hp : order.Perm ((List.range k).map (· + 1))) :
+    let σ : Int → Nat := fun x => (order.idxOf? (x + 1).toNat).getD 0
+    let τ : Nat → Nat := fun i => order[i]?.getD 0 - 1
+    (∀ x : Int, 0 ≤ x → x.toNat < k → σ x < k ∧ τ (σ x) = x.toNat) ∧
+    (∀ i, i < k → τ i < k ∧ σ (τ i : Int) = i) := by
+  intro σ τ
+  have hlen : order.length = k := by simpa using hp.length_eq
+  have hnd : order.Nodup := hp.symm.nodup (nodup_range_succ k)
+  have hmem : ∀ y, y ∈ order ↔ ∃ j, j < k ∧ j + 1 = y := by
+    intro y
+    rw [hp.mem_iff]
+    simp
+  constructor
+  · intro x hx hxk
+    have hy : (x + 1).toNat ∈ order := (hmem _).2 ⟨x.toNat, hxk, by omega⟩
+    cases hi : order.idxOf? (x + 1).toNat with
+    | none => rw [List.idxOf?_eq_none_iff] at hi; exact absurd hy hi
+    | some i =>
+      obtain ⟨hil, hie, _⟩ := List.idxOf?_eq_some_iff.1 hi
+      have e1 : σ x = i := by show (order.idxOf? (x + 1).toNat).getD 0 = i; rw [hi]; rfl
+      rw [e1]
+      refine ⟨by omega, ?_⟩
+      show order[i]?.getD 0 - 1 = x.toNat
+      rw [List.getElem?_eq_getElem hil, Option.getD_some, hie]
+      omega
+  · intro i hi
+    have hil : i < order.length := by omega
+    obtain ⟨j, hj, hje⟩ := (hmem order[i]).1 (List.getElem_mem hil)
+    have e1 : τ i = j := by
+      show order[i]?.getD 0 - 1 = j
+      rw [List.getElem?_eq_getElem hil, Option.getD_some]; omega
+    rw [e1]
+    refine ⟨hj, ?_⟩
+    show (order.idxOf? ((j : Int) + 1).toNat).getD 0 = i
+    have : ((j : Int) + 1).toNat = order[i] := by omega
+    rw [this]
+    have : order.idxOf? order[i] = some i := by
+      rw [List.idxOf?_eq_some_iff]
+      refine ⟨hil, rfl, ?_⟩
+      intro j' hj' e
+      have := (List.getElem_inj (h₀ := by omega) (h₁ := hil) hnd).1 e
+      omega
+    rw [this]; rfl
+
+theorem CWF_reorderingOptimal (f : Func) (l : Lin) (hf : f ≠ []) (h : CWF f l) :
+    CWF (reorderingOptimal f l).1 (reorderingOptimal f l).2 := by
+  unfold CWF at h ⊢
+  have hlen : (reorderingOptimal f l).1.length = f.length := reorder_length .optimal f l hf
+  rw [hlen]
+  have hp := perm_positions (pickOrder l ((List.range (f.length - 1)).map (· + 1)) (f.length - 1)) (f.length - 1)
+    (pickOrder_full l (f.length - 1))
+  exact wfLin_relabel l (f.length - 1)
+    (fun x => ((pickOrder l ((List.range (f.length - 1)).map (· + 1)) (f.length - 1)).idxOf? (x + 1).toNat).getD 0)
+    (fun i => (pickOrder l ((List.range (f.length - 1)).map (· + 1)) (f.length - 1))[i]?.getD 0 - 1) hp.1 hp.2 h
+
+theorem CWF_reorder (r : Reordering) (f : Func) (l : Lin) (hf : f ≠ []) (h : CWF f l) :
+    CWF (reorder r f l).1 (reorder r f l).2 := by
+  cases r
+  · exact h
+  · exact h
+  · exact CWF_reorderingOptimal f l hf h
 
 end TT.Lemmas.Unbin
